@@ -56,6 +56,7 @@ def ribRegister (st : St) (ext : Ext) (inFace : Nat) (name : Name) (p : Params) 
         | some f => (faceGet st.faces f).isSome
         | none => true
       if !ok then (st, .ctrl 410 noArgs) else
+      if !expOk a.exp then (st, r400) else            -- F-17f: was an overflowing time.Duration
       let r : Route := ⟨faceID, a.origin.getD 0, a.cost.getD 0, a.flags.getD 1, a.exp⟩
       ({ st with rib := ribAdd st.rib n r, fib := ext.fibAfter },
        .ctrl 200 { name := some n, faceId := some faceID, origin := some r.origin, cost := some r.cost,
